@@ -223,3 +223,49 @@ func VerifC02Concurrent() {
 	vAssert(vLiveGoroutines() == 0, "concurrent/no-goroutine-left")
 	vReach("end")
 }
+
+// VerifC02TwoConsumers: two idle consumers, two requests accepted close together; every consumer
+// that received a request stays busy until ALL accepted requests have been handed over.  A
+// consumer left sleeping while an accepted request sits in the queue (lost wake-up on the
+// consumer side) shows up as a deadlock.
+func VerifC02TwoConsumers() {
+	q := newMemoryQueue[vc02Req](memoryQueueSettings[vc02Req]{sizer: vc02Sizer{}, capacity: 4}).(*memoryQueue[vc02Req])
+	N := vParam("requests")
+	C := vParam("consumers")
+	var handedWG, consumers sync.WaitGroup
+	handedWG.Add(N)
+	consumers.Add(C)
+	release := make(chan struct{})
+	handed := make([]int, N)
+	var mu sync.Mutex
+	for c := 0; c < C; c++ {
+		go func() {
+			defer consumers.Done()
+			for {
+				_, r, done, ok := q.Read(context.Background())
+				if !ok {
+					return
+				}
+				mu.Lock()
+				handed[r.id]++
+				mu.Unlock()
+				handedWG.Done()
+				<-release // busy with this request until everything accepted has been handed to somebody
+				done.OnDone(nil)
+			}
+		}()
+	}
+	vSettle() // both consumers are idle, waiting for work
+	for i := 0; i < N; i++ {
+		vAssert(q.Offer(context.Background(), vc02Req{id: i, size: 1}) == nil, "two-consumers/offer-accepted")
+	}
+	handedWG.Wait() // every accepted request reaches an idle consumer although the others are busy
+	close(release)
+	vAssert(q.Shutdown(context.Background()) == nil, "two-consumers/shutdown-ok")
+	consumers.Wait()
+	for i := 0; i < N; i++ {
+		vAssert(handed[i] == 1, "two-consumers/handed-over-exactly-once")
+	}
+	vAssert(q.Size() == 0, "two-consumers/size-zero-at-the-end")
+	vReach("end")
+}
